@@ -69,6 +69,10 @@ CHECKS = {
             "DESIGN.md 3/C19",
             "Every writer (LZMAWriter 4 framings, LZMA2Writer, XZWriter with 0-5 wild pre-filters, LZIPWriter, MT writers) with option vectors from the boundary grid (dict_size, lc, lp, pb, lc+lp, nice_len, depth, preset dictionary none/empty/short/long, unit sizes 1..u64::MAX, delta distances, unaligned BCJ offsets): construct + write + finish must return Err somewhere or produce a stream the corresponding reader (configured from the same options) decodes to the written bytes; never a panic.",
             "Dictionaries above 64 MiB are not instantiated."),
+    "C13": ("exploration", "metamorphic property testing: identical output across executions that differ in write partition, heap history / junk-filled allocator, worker count and (shuttle) thread schedule",
+            "DESIGN.md 3/C13",
+            "Generated (data, options) compressed 2-4 times: different write partitions (LZMA, LZIP, MT writers; LZMA2/XZ without chunk/block size), different heap histories with fresh memory filled with 0xA5 and freed memory with 0x5A, worker counts 1-6, and in the scheduler build 20 seeded schedules per case; all outputs must be byte-identical and MT output must equal the concatenation of the single-threaded encodings of the fixed-size units.",
+            "Three builds share the check (checked, release on real threads; scheduler build for schedules); sequentially consistent scheduler."),
 }
 
 NOT_YET = {
@@ -91,7 +95,7 @@ def main():
                 "thorough_cmd": f"./check {pid} thorough",
                 "evidence_file": f"evidence/{pid}.json",
                 "replay_cmd_template": "./check replay {path}",
-                "engine": "lzv-mt" if pid in ("C08","C09","C10") else "lzv",
+                "engine": "lzv-mt" if pid in ("C08","C09","C10") else ("lzv + lzv-mt" if pid == "C13" else "lzv"),
                 "level_claimed": {"category": level, "text": text, "design_ref": ref},
                 "level_note": note,
                 "technique": tech,
